@@ -41,6 +41,8 @@ Ok(e, NILOK) == CASE e.k = "clone" -> CloneOk(e, NILOK)
                   [] e.k = "bop" -> BopOk(e)
                   [] e.k = "rev" -> RevOk(e)
                   [] e.k = "orient" -> OrientOk(e)
+                  \* sizes: a million vertices, ten thousand nested collections - judged in the harness against plain scans
+                  [] e.k = "corebig" -> e.ok = 1
                   \* two values that differ in one coordinate by one unit in the last place (or a relative 1e-14, 1e-12): not equal
                   [] e.k = "eqzero" -> e.ab /\ e.ba                                  \* +0 and -0 are the same coordinate
                   [] e.k = "equb" -> e.ab = (e.same = 1) /\ e.any = (e.same = 1)      \* bounds: equal corners, whatever they enclose
